@@ -47,6 +47,35 @@ def check_case(ctx, case):
             ms = MetricSpace(coords.copy(), kw['dist_func'])             # dense, shared
             Vd = Variogram(ms, values, **kw)
             Vd2 = Variogram(ms, values, **kw)                          # second user of the same space
+        if kw['dist_func'] != 'euclidean':
+            # other metrics: an absolute maxlag on raw coordinates vs a dense MetricSpace of the same metric (how
+            # the distances are stored for them is the implementation's choice - the results must not depend on it)
+            es, cs, xs = observe(Vs)
+            ed, cd, xd = observe(Vd)
+            ctx.count('metric:' + kw['dist_func'])
+            ctx.case(signature=('raw-vs-metricspace', kw['dist_func'], tuple(cd.tolist())), stream='storage-routes',
+                     sample=dict(kw={k: v for k, v in kw.items()}, n=len(values)))
+            dn = np.asarray(Vd.distance, float)
+            if len(np.unique(dn[dn <= M * (1 + 1e-12)])) >= 2 and vario.is_sparse(Vs) is False and \
+                    not (all_close(es, ed, rel=1e-12) and cs.tolist() == cd.tolist() and all_close(xs, xd, rel=1e-9)):
+                ctx.violation('raw-vs-metricspace', 'dist_func=%r, maxlag=%r: raw coordinates give edges %r counts %r, a '
+                              'MetricSpace of the same metric edges %r counts %r' % (
+                                  kw['dist_func'], M, es.tolist(), cs.tolist(), ed.tolist(), cd.tolist()), case)
+            elif len(np.unique(dn[dn <= M * (1 + 1e-12)])) >= 2 and vario.is_sparse(Vs):
+                # a truncated store for this metric: counts / semivariances of every class must still be those of
+                # all pairs within the class (edges may end at the largest stored distance: D9)
+                ds_ = np.asarray(Vs.distance, float)
+                inside = int(np.sum(dn <= M * (1 - 1e-12)))
+                if len(ds_) < inside:
+                    ctx.violation('raw-vs-metricspace', 'dist_func=%r, maxlag=%r: only %d of the %d pairs within the maximum '
+                                  'lag enter the variogram built from raw coordinates' % (kw['dist_func'], M, len(ds_), inside), case)
+                    return
+                want = [int(np.sum((dn >= lo) & (dn < hi))) for lo, hi in zip(np.concatenate(([0.0], es[:-1])), es)]
+                near = np.min(np.abs(dn[:, None] - es[None, :]) / np.maximum(1.0, np.abs(es[None, :]))) if len(es) else 1.0
+                if (near > 1e-12 or case['kind'] == 'lattice') and want != cs.tolist():
+                    ctx.violation('raw-vs-metricspace', 'dist_func=%r, maxlag=%r (truncated store): pairs per class %r, all '
+                                  'pairs within the classes %r' % (kw['dist_func'], M, cs.tolist(), want), case)
+            return
         if not vario.is_sparse(Vs):
             ctx.reject('not-sparse')
             return
@@ -132,7 +161,8 @@ def gen(ctx):
     rng = ctx.rng
     while True:
         case = vario.gen_case(rng, nmax=30 if ctx.tier == 'quick' else 50, allow_custom=False,
-                              metrics=['euclidean'], binnings=['even', 'uniform', 'kmeans', 'ward', 'sturges'],
+                              metrics=['euclidean', 'euclidean', 'euclidean', 'cityblock', 'chebyshev', 'chebyshev'],
+                              binnings=['even', 'uniform', 'kmeans', 'ward', 'sturges'],
                               kinds=['uniform', 'clustered', 'lattice', 'lattice', 'dup'])
         M = case['kw']['maxlag']
         if isinstance(M, float) and M >= 1 and case['storage'] == 'raw':
@@ -141,7 +171,7 @@ def gen(ctx):
 
 
 def run(ctx):
-    for k in range(ctx.n(60, 600)):
+    for k in range(ctx.n(90, 1200)):
         check_case(ctx, gen(ctx))
     ctx.lean.flush()
 
